@@ -18,7 +18,7 @@ def run_unit(unit, repo):
     p = subprocess.run('cd %s && VERIF_BUILD_DIR=%s/build REPO=%s python3 devgen.py %s' % (ROOT, repo if repo != '/repo' else ROOT, repo, unit), shell=True, stdout=subprocess.PIPE, stderr=subprocess.STDOUT, timeout=900)
     o = p.stdout.decode('utf-8', 'replace')
     st = re.search(r'STATUS (\w+)', o)
-    fails = sorted(set('%s@%s' % x for x in re.findall(r"failed (?:this postcondition|precondition) \{[^}]*'(?:fn)': '([^']+)'[^}]*'tline': (\d+)", o)) | set(re.findall(r"^--- (.*?) \(semantic\)", o, re.M)))
+    fails = sorted(set(re.findall(r"^--- (.*?) \((?:semantic|tool)\)", o, re.M)) | set(re.sub(r'^\s*gen:\d+ ', '', l).split(' | ')[0] for l in o.split('\n') if l.startswith('    gen:')))
     return (st.group(1) if st else 'crash'), fails, o
 
 def main():
@@ -82,13 +82,17 @@ def main():
         finally:
             shutil.rmtree(D, ignore_errors=True)
     surv = []
+    lost = []
     with ThreadPoolExecutor(workers) as ex:
         for m, st, fails in ex.map(one, muts):
             killed = (st == 'fail' and fails != base_f) or (st == 'undecided')
-            if not killed:
+            if st == 'crash':
+                lost.append(m)
+                print('LOSTANCHOR %s:%d %s -> %s in %s' % (m[0], m[5], m[2], m[3], m[4]), flush=True)
+            elif not killed:
                 surv.append(m)
                 print('SURVIVOR %s:%d %s -> %s in %s' % (m[0], m[5], m[2], m[3], m[4]), flush=True)
-    print('done: %d mutants, %d survivors' % (len(muts), len(surv)))
+    print('done: %d mutants, %d survivors, %d lost anchors (undecided)' % (len(muts), len(surv), len(lost)))
 
 if __name__ == '__main__':
     main()
